@@ -4,23 +4,86 @@ import pathlib
 
 VERIF = pathlib.Path(__file__).resolve().parent.parent
 
+def _e(category, technique, text, ref, note):
+    return {'category': category, 'technique': technique, 'text': text,
+            'design_ref': ref, 'note': note}
+
+
+_BASE_NOTE = ('Trusts: anndata/h5py/numpy as file and array layer, the '
+              'harness generators (parent-pointer taxonomy model, in-memory '
+              'matrices) as ground truth, statistics files written by the '
+              'harness in the documented layout unless stated.  Verdict '
+              'covers the executions produced (counts in the evidence), not '
+              'all inputs.')
+
 CHECKS = {
-    'C01': {
-        'category': 'exploration',
-        'technique': 'runtime monitor over real run_mapping / '
-                     'run_type_assignment_on_h5ad executions: reference-'
-                     'model (parent-pointer taxonomy) oracle on every result '
-                     'record, worker completion order perturbed by a '
-                     'Process proxy',
-        'text': 'Held on every generated execution: all 470 tree shapes '
-                '(<=4 levels, <=6 leaves) x flatten / each droppable level '
-                'in the thorough tier plus random larger inputs; not a '
-                'proof over all inputs.',
-        'design_ref': 'DESIGN.md section 2 C01',
-        'note': 'Trusts the harness-written statistics file layout '
-                '(documented schema), anndata as file writer, and the '
-                'generator model as the definition of the taxonomy.',
-    },
+    'C01': _e('exploration',
+              'runtime monitor over real run_mapping / '
+              'run_type_assignment_on_h5ad executions: reference-model '
+              '(parent-pointer taxonomy) oracle on every result record; '
+              'worker completion order perturbed by a Process proxy',
+              'Held on every generated execution: all 470 tree shapes (<=4 '
+              'levels, <=6 leaves) x flatten / each droppable level in the '
+              'thorough tier plus random larger inputs.',
+              'DESIGN.md section 2 C01', _BASE_NOTE),
+    'C02': _e('exploration',
+              'offline trace checker: guarded hook records chunk / visit / '
+              'node / draw events inside the real workers; every vote is '
+              'recomputed from the input files and the recorded subsets by '
+              'an independent oracle (own log2CPM, name-based column '
+              'selection, longdouble Pearson) and compared with the output',
+              'Every (cell, node, iteration) of the generated runs is '
+              'recomputed; near-ties and constant vectors are counted '
+              'don\'t-care.',
+              'DESIGN.md section 2 C02',
+              _BASE_NOTE + ' The add-only hook reports the subset actually '
+              'applied to both matrices.'),
+    'C03': _e('exploration',
+              'invariant monitor on every level record of generated '
+              'outputs (JSON and HDF5 read-back) + record-only icontract '
+              'post-conditions on the real choose_node / tally_votes '
+              'evaluated inside the forked workers',
+              'Arithmetic contract asserted on every record produced; '
+              'contract evaluations counted (zero = inconclusive).',
+              'DESIGN.md section 2 C03', _BASE_NOTE),
+    'C06': _e('exploration',
+              'metamorphic differential monitor: base run vs runs on '
+              'permuted / sub-sampled / embedded / duplicated cells and '
+              'other chunkings, joined on cell id',
+              'Relation checked on every joined cell of every transformed '
+              'run; near-tie cells (independent oracle) are don\'t-care.',
+              'DESIGN.md section 2 C06', _BASE_NOTE),
+    'C07': _e('exploration',
+              'metamorphic differential monitor over paired real runs '
+              '(raw vs normalised, per-cell scale, gene permutation, extra '
+              'genes: bitwise where the statement says so) + negative-input '
+              'rejection probe in three encodings',
+              'Five relations per generated world.',
+              'DESIGN.md section 2 C07', _BASE_NOTE),
+    'C08': _e('exploration',
+              'reference-model monitor: a direct model of the statement '
+              '(own markers, ancestors nearest first, root) compared with '
+              'the marker cache the real code writes, the marker_genes it '
+              'reports, the gene lists of the node trace events and the '
+              'errors it raises',
+              'Thousands of generated tables per run against the real '
+              'reconciliation code plus end-to-end mappings.',
+              'DESIGN.md section 2 C08', _BASE_NOTE),
+    'C15': _e('exploration',
+              'cross-file consistency monitor over the JSON, CSV (csv '
+              'module) and HDF5 (hdf5_to_blob) outputs of generated runs, '
+              'embedded taxonomy and marker table compared with the model '
+              'and the trace',
+              'All three files of every generated run compared field by '
+              'field.',
+              'DESIGN.md section 2 C15', _BASE_NOTE),
+    'C17': _e('exploration',
+              'differential monitor over paired real runs with a common '
+              'seed: configuration-level drop / flatten vs a reference '
+              'whose taxonomy is already reduced; bitwise comparison of '
+              'level records',
+              'Every droppable level of every generated taxonomy.',
+              'DESIGN.md section 2 C17', _BASE_NOTE),
 }
 
 PENDING_REASON = ('check not built yet in this session; the property is in '
@@ -34,8 +97,11 @@ ALL = [f'C{i:02d}' for i in range(1, 21)]
 
 def main():
     checks = []
+    present = {pid for pid in ALL
+               if (VERIF / 'vp' / 'checks' / f'{pid.lower()}.py').exists()
+               and pid in CHECKS}
     for pid in ALL:
-        if pid not in CHECKS:
+        if pid not in present:
             continue
         c = CHECKS[pid]
         checks.append({
@@ -55,7 +121,7 @@ def main():
         })
     na = []
     for pid in ALL:
-        if pid in CHECKS:
+        if pid in present:
             continue
         na.append({'property_id': pid,
                    'reason': NOT_APPLICABLE.get(pid, PENDING_REASON)})
@@ -70,13 +136,13 @@ def main():
                       'vp.mapworld.run_world); editable install, no build '
                       'step',
             'baseline_off_cmd': './selftest/baseline_off.sh',
-            'source_commits': ['594ed2c'],
+            'source_commits': ['594ed2c1098b17119f76f510d106b78763f61ef2'],
             'add_only': True,
         },
         'engines': [{
             'name': 'vp-runtime-monitor',
             'path': 'vp/',
-            'serves_properties': sorted(CHECKS.keys()),
+            'serves_properties': sorted(present),
             'kind_free_text': 'case generator + isolated worker '
                               'interpreters running the real code + '
                               'trace / reference-model / differential / '
